@@ -293,8 +293,26 @@ def check_pack(case, E):
     for n in case["beside"]:
         E.write(E.join(parent, n), b"x")
     arg = pack + (E.sep if case["trailing_sep"] else "")
-    sp = SimfilePack(arg, **E.kw)
-    got = sp.banner()
+    rel = bool(case.get("relative")) and E.flavour == "native"
+    if rel:
+        # the pack named relative to the current directory ("My Pack", "./My Pack/"): answers are compared as absolute paths
+        import os
+
+        old_cwd = os.getcwd()
+        os.chdir(parent)
+        try:
+            arg = ("./" if case["relative"] == "dot" else "") + name + (E.sep if case["trailing_sep"] else "")
+            sp = SimfilePack(arg, **E.kw)
+            got = sp.banner()
+            again = sp.banner()
+            got = os.path.abspath(got) if got is not None else None
+            again = os.path.abspath(again) if again is not None else None
+        finally:
+            os.chdir(old_cwd)
+    else:
+        sp = SimfilePack(arg, **E.kw)
+        got = sp.banner()
+        again = sp.banner()
     listing = E.listdir(pack)
     ranked = [(image_rank(e), e) for e in listing if image_rank(e) is not None and not E.isdir(E.join(pack, e))]
     ctx = f"SimfilePack({arg!r}).banner(); pack listing {sorted(listing)!r}, beside {sorted(E.listdir(parent))!r}"
@@ -315,8 +333,9 @@ def check_pack(case, E):
             labels.append("none")
     if got is not None:
         need(E.exists(got), f"{ctx}: answer {got!r} does not exist")
-    again = sp.banner()
     need(again == got, f"{ctx}: asked again, got {again!r} after {got!r}")
+    if rel:
+        labels.append("relative-pack-path")
     return Verdict(nontrivial=bool(ranked) or labels[0].startswith("beside"), evals=2, labels=labels)
 
 
@@ -472,6 +491,7 @@ def s_pack(draw):
         "songdirs": draw(st.lists(st.sampled_from(["Song A", "songB", "jpg"]), max_size=2, unique=True)),
         "beside": beside,
         "trailing_sep": bool((o >> 1) & 1) and bool((o >> 2) & 1),
+        "relative": [None, None, None, "bare", "dot", None, None, "bare"][(o >> 3) & 7],
     }
 
 
